@@ -172,9 +172,10 @@ class Gen:
         n = self.r.randint(1, 3)
         saved = dict(self.locals)
         body = " ".join(self.stmt(depth, hybrids) for _ in range(n))
-        # C scoping is not modelled by the compiler (one flat namespace); keep generated names unique
-        for k in self.locals:
-            saved.setdefault(k, self.locals[k])
+        # C scoping: a local declared inside the block is not visible after it (using it there is not C: the compiler and the model need
+        # not agree on such text).  The compiler keeps ONE flat namespace, so the name stays reserved: no later declaration re-uses it
+        # (re-declaration is the listed finding D29).
+        self.reserved = getattr(self, "reserved", set()) | {k for k in self.locals if k not in saved}
         self.locals = saved
         return "{ " + body + " }"
 
